@@ -3,6 +3,7 @@ package main
 import (
 	"flag"
 	"fmt"
+	"os"
 	"strings"
 
 	"golang.org/x/tools/go/ssa"
@@ -23,12 +24,46 @@ func dump(args []string) int {
 	rendM := fs.String("rend", "", "evaluate this Renderer method on the post-Reset state")
 	opq := fs.String("opaque", "", "comma separated function names kept opaque (with -rend)")
 	pinA := fs.String("pin", "", "comma separated Renderer fields pinned to atoms (with -rend)")
+	ssaOut := fs.Bool("ssa", false, "print the SSA form of -func instead of evaluating it")
 	key := fs.Int("key", -1, "pin input byte 0 of parameter src to this value and use the decoder hooks")
 	fs.Parse(args)
 	prog, err := load.Load(load.RepoDir(), "amd64")
 	if err != nil {
 		fmt.Println(err)
 		return 2
+	}
+	if *ssaOut && *fn != "" {
+		parts := strings.Split(*fn, ".")
+		var f *ssa.Function
+		if len(parts) == 2 {
+			rel := parts[0]
+			if rel == "." {
+				rel = ""
+			}
+			f = prog.Func(rel, parts[1])
+			if f == nil && parts[1] == "init" {
+				for _, pk := range prog.Pkgs {
+					if prog.Rel(pk.Types) == rel {
+						f = prog.SSA.Package(pk.Types).Func("init")
+					}
+				}
+			}
+		} else if len(parts) == 3 {
+			rel := parts[0]
+			if rel == "." {
+				rel = ""
+			}
+			f = prog.Method(rel, parts[1], parts[2], true)
+			if f == nil {
+				f = prog.Method(rel, parts[1], parts[2], false)
+			}
+		}
+		if f == nil {
+			fmt.Println("not found")
+			return 2
+		}
+		f.WriteTo(os.Stdout)
+		return 0
 	}
 	if *encM != "" {
 		ctx := &rules.Ctx{P: prog, R: report.NewRun("dump", "quick", 0)}
